@@ -77,13 +77,40 @@ func PageIndividual(document *gedcom.Document, individual *gedcom.IndividualNode
 
 	individuals := getIndividuals(document, placesMap, visibility)
 
-	for key, value := range individuals {
-		if value.Is(individual) {
-			return fmt.Sprintf("%s.html", key)
-		}
+	if key, ok := individualKey(document, individuals, individual); ok {
+		return fmt.Sprintf("%s.html", key)
 	}
 
 	return "#"
+}
+
+// individualKey finds the key of an individual in the map of getIndividuals.
+//
+// Several records of a document can share a pointer (or have none), so the
+// record itself is looked for first. An individual that is not one of the
+// records of the document (a copy) gets the key of the first record of the
+// document with the same pointer. Returning whichever entry with that pointer
+// the map hands out first would give a different page every time.
+func individualKey(document *gedcom.Document, individuals map[string]*gedcom.IndividualNode, individual *gedcom.IndividualNode) (string, bool) {
+	for key, value := range individuals {
+		if value == individual {
+			return key, true
+		}
+	}
+
+	for _, candidate := range document.Individuals() {
+		if !candidate.Is(individual) {
+			continue
+		}
+
+		for key, value := range individuals {
+			if value == candidate {
+				return key, true
+			}
+		}
+	}
+
+	return "", false
 }
 
 func PagePlaces() string {
